@@ -113,9 +113,13 @@ CHECKS.update({
                     "the context deadline as three parties with the code's channel capacities; TLC checks Truth (no invented success), "
                     "NoBlock (the completion never blocks) and, under fairness, that every call returns and every started callback "
                     "finishes; the unbuffered variant is refuted (vacuity control). Every order of the parties' steps is executed "
-                    "repeatedly on the real AsyncOp and judged by MonAsync.tla. Found F4 (GetVBucketSeqNos dropped the callback error) "
-                    "by reading the wrappers against the specification's per-wrapper table; repaired.",
-            "ref": "6/C20", "note": "binding covers couchbase/async_op.go; the 14 wrappers over real gocbcore agents (deadlines, cancel on silence) are a rig-B item",
+                    "repeatedly on the real AsyncOp and judged by MonAsync.tla. The behaviours without a racing deadline (server answers ok / answers "
+                    "an error status / stays silent) are also executed on every REAL wrapper - GetVBucketSeqNos, GetFailOverLogs, OpenStream, "
+                    "CloseStream, GetCollectionIDs of client.go; Get, Create/Update/DeleteDocument, Upsert/GetXattrs, CreatePath of doc_op.go - "
+                    "over real gocbcore agents against the simulated node, judged by the same monitor (no invented outcome, returned by the deadline). "
+                    "Found F4 (GetVBucketSeqNos dropped the callback error); repaired; the wire runs report it on the code before the fix.",
+            "ref": "6/C20", "note": "a silent server costs the wrappers of client.go their hard-coded 60 s: those cases run in the thorough tier only; "
+                    "Ping and the agent bootstrap are not covered",
             "technique": "TLA+ model checking (TLC, safety + liveness) + exhaustive order replay on the real primitive + TLC trace monitor"},
     "C19": {"text": "HealthCheck.tla models run / performHealthCheck / Start / Stop at the granularity of the client's Ping call; TLC checks "
                     "exhaustively (two rounds, every pattern, Stop anywhere) that the process dies exactly on five consecutive failures of "
